@@ -107,6 +107,9 @@ pub struct Config {
     /// The type-changing builder methods are applied in reverse order
     /// (`after`, `before`, `which_scenario` instead of `which_scenario`, `before`, `after`).
     pub reverse_builder: bool,
+    /// A custom retry policy set through `.retry_options(f)`: scenarios tagged `pol` get
+    /// two retries without delay, nothing else is retried (tags / CLI / builder ignored).
+    pub retry_policy: bool,
 }
 
 impl Default for Config {
@@ -142,6 +145,7 @@ impl Default for Config {
             outer_span: false,
             warn_filter: false,
             reverse_builder: false,
+            retry_policy: false,
         }
     }
 }
@@ -495,6 +499,9 @@ macro_rules! with_runner {
         if cfg.fail_fast_builder {
             base = base.fail_fast();
         }
+        if cfg.retry_policy {
+            base = base.retry_options($crate::spec::retry_policy_fn);
+        }
         let base = base.steps($crate::spec::collection());
         match (cfg.before, cfg.after, cfg.custom_which, cfg.reverse_builder) {
             (false, false, false, _) => { let $r = base; $body }
@@ -543,6 +550,25 @@ macro_rules! with_runner {
     }};
 }
 pub(crate) use with_runner;
+
+/// The custom retry policy of `Config::retry_policy`.
+pub fn retry_policy_fn(
+    feature: &gherkin::Feature,
+    rule: Option<&gherkin::Rule>,
+    scenario: &gherkin::Scenario,
+    _cli: &RunnerCli,
+) -> Option<runner::basic::RetryOptions> {
+    let tagged = scenario
+        .tags
+        .iter()
+        .chain(rule.iter().flat_map(|r| &r.tags))
+        .chain(&feature.tags)
+        .any(|t| t == "pol");
+    tagged.then(|| runner::basic::RetryOptions {
+        retries: cucumber::event::Retries { current: 0, left: 2 },
+        after: None,
+    })
+}
 
 pub fn custom_which_fn() -> runner::basic::WhichScenarioFn {
     custom_which
